@@ -41,7 +41,7 @@ def make_case(seed, tier):
         kind = 'wild'
     cls = []
     for path, it in S.walk_items(mod.items):
-        if it.k == 'Class' and not it.template and path and not any(m.k == 'Enum' for m in it.members):
+        if it.k == 'Class' and not it.template and not any(m.k == 'Enum' for m in it.members):
             cls.append('::'.join(path + (it.name,)))
     ignore = r.sample(cls, min(len(cls), r.choice([1, 2]))) if (cls and r.random() < 0.3) else []
     return mod, {'ser': r.random() < 0.3, 'ignore': ignore, 'kind': kind}
@@ -161,9 +161,7 @@ def check_classdef(path, d, p):
 
 def run_case(seed, tier, acc):
     mod, opts = make_case(seed, tier)
-    if d25_flagged(mod):
-        acc.count('skipped_flagged_D25')
-        return None, None, opts
+    # (class-scoped enums of classes in nested namespaces are part of the workload: D25 repaired)
     text = render.render(mod)
     try:
         vs = check(mod, opts, acc, text)
@@ -203,7 +201,18 @@ def replay(case, ctx):
 
 
 def probes(ctx):
-    run_probes(ctx, PID, {'toolbox-files': probe})
+    run_probes(ctx, PID, {'toolbox-files': probe, 'toolbox-serialize-name': probe_serialize_name})
+
+
+def probe_serialize_name(witness, ctx):
+    """names used by the serialization support of a class must be valid MATLAB names (pkg.Class or Class)"""
+    tb = mlwork.Toolbox(witness['text'], 'modx', (), True)
+    for path, content in tb.raw.items():
+        if path.endswith('.m'):
+            m = re.search(r"[ '=](\.[A-Za-z_]\w*\.string_deserialize)", content)
+            if m:
+                return 'invalid MATLAB name ' + m.group(1)
+    return None
 
 
 def probe(witness, ctx):
